@@ -163,12 +163,55 @@ Proof. intros V1 V2 H. rewrite <- (fs_key_of_path k1 V1), <- (fs_key_of_path k2 
 Theorem fs_read_bytes E i p e h b : ok E i ->
   get_q (fs_key p) (load_all E i) = Ok (Some e) -> isdir_raw (norm e) = false ->
   under_sp E (fs_key p) = true -> e_hash e = Some h -> hi_truthy (Some h) = true ->
-  assoc (v_blobs E) h = Some b ->
+  blob_of E h = Some b ->
   snd (fs_read_step E (load_all E i) p) = Ok b.
 Proof.
   intros Hok G D U H T B. unfold fs_read_step, get_step. rewrite guarded_full by assumption.
   simpl. rewrite G, D, U, H, T. simpl. now rewrite B.
 Qed.
+
+(* which storage serves a read: the first one, in the adaptor's order cache, remote, data, that holds
+   the object; a read fails only if no registered storage holds it *)
+Lemma first_some_spec {A B} (f : A -> option B) l b : first_some f l = Some b ->
+  exists pre a post, l = pre ++ Some a :: post /\ f a = Some b /\
+                     forall a', In (Some a') pre -> f a' = None.
+Proof.
+  induction l as [|[a|] l IH]; simpl; [discriminate| |].
+  - destruct (f a) as [b'|] eqn:Fa.
+    + intros [= ->]. exists [], a, l. repeat split; [assumption | intros ? []].
+    + intros H. destruct (IH H) as [pre [a0 [post [-> [H1 H2]]]]].
+      exists (Some a :: pre), a0, post. repeat split; [assumption|].
+      intros a' [[= <-]|Hin]; [assumption | now apply H2].
+  - intros H. destruct (IH H) as [pre [a0 [post [-> [H1 H2]]]]].
+    exists (None :: pre), a0, post. repeat split; [assumption|].
+    intros a' [C|Hin]; [discriminate | now apply H2].
+Qed.
+Lemma first_some_none {A B} (f : A -> option B) l :
+  first_some f l = None <-> forall a, In (Some a) l -> f a = None.
+Proof.
+  induction l as [|[a|] l IH]; simpl.
+  - split; [intros _ ? [] | reflexivity].
+  - destruct (f a) eqn:Fa.
+    + split; [discriminate|]. intros H. rewrite (H a) in Fa; [discriminate | now left].
+    + rewrite IH. split; [intros H a' [[= <-]|Hin]; auto | intros H a' Hin; apply H; now right].
+  - rewrite IH. split; [intros H a' [C|Hin]; [discriminate|auto] | intros H a' Hin; apply H; now right].
+Qed.
+
+Theorem blob_first E h b : blob_of E h = Some b ->
+  exists pre st post, roles_read E = pre ++ Some st :: post /\ assoc (s_blobs st) h = Some b /\
+                      forall st', In (Some st') pre -> assoc (s_blobs st') h = None.
+Proof. apply first_some_spec. Qed.
+
+Theorem blob_any E h st : In (Some st) (roles_read E) -> assoc (s_blobs st) h <> None ->
+  exists b, blob_of E h = Some b.
+Proof.
+  intros Hin NE. destruct (blob_of E h) as [b|] eqn:Q; [now exists b|].
+  exfalso. apply NE. unfold blob_of in Q. rewrite first_some_none in Q. now apply Q.
+Qed.
+
+Theorem blob_none E h : blob_of E h = None <->
+  forall st, In (Some st) (roles_read E) -> assoc (s_blobs st) h = None.
+Proof. apply first_some_none. Qed.
 
 (* ---- non-vacuity: a concrete lazy index ---- *)
 Definition ex_h1 : oid := [97].
@@ -176,8 +219,10 @@ Definition ex_h2 : oid := [98].
 Definition ex_d : oid := [100; 46; 100; 105; 114].
 Definition ex_env : env :=
   {| v_sp := Some [];
-     v_dirs := [(ex_d, [Rw [[120]] ex_h1 None false; Rw [[115]; [121]] ex_h2 (Some 2) true])];
-     v_blobs := [(ex_h1, [1; 2]); (ex_h2, [3])] |}.
+     v_data := None;
+     v_cache := Some {| s_dirs := [(ex_d, [Rw [[120]] ex_h1 None false; Rw [[115]; [121]] ex_h2 (Some 2) true])];
+                        s_blobs := [(ex_h1, [1; 2])] |};
+     v_remote := Some {| s_dirs := []; s_blobs := [(ex_h1, [1; 2]); (ex_h2, [3])] |} |}.
 Definition ex_idx : idx :=
   [([[100]], En true None false (Some ex_d) false); ([[102]], E0 (Some ex_h1) false)].
 Definition ex_ops : list op :=
@@ -225,3 +270,9 @@ Example ex_diff_answer :
   | _ => False
   end.
 Proof. vm_compute. reflexivity. Qed.
+
+(* in the example the object of d/s/y is absent from the cache and served by the remote *)
+Example ex_fallthrough :
+  blob_of ex_env ex_h2 = Some [3] /\
+  (match v_cache ex_env with Some c => assoc (s_blobs c) ex_h2 | None => None end) = None.
+Proof. vm_compute. split; reflexivity. Qed.
